@@ -57,7 +57,11 @@ def gen(rng, tier, idx):
             'scheds': [common.draw_sched(rng) for _ in range(4)], 'perm_seed': rng.randrange(2 ** 31),
             # the pipeline's truncation stage between statistics and markers (a sub-sequence of the levels is kept;
             # when the leaf level goes, its parents become the leaves and the rows of the file are re-built)
-            'truncate': rng.random() < 0.3, 'truncate_seed': rng.randrange(2 ** 31)}
+            'truncate': rng.random() < 0.3, 'truncate_seed': rng.randrange(2 ** 31),
+            # the same composition through the on-the-fly-marker entry point (one run, three pools): its results
+            # must equal those of the stages run one by one (then the query is shown to the marker stages as well,
+            # as that entry point does)
+            'via_otf': rng.random() < 0.3, 'sched_otf': common.draw_sched(rng)}
 
 
 def run(scn, sb):
@@ -111,38 +115,6 @@ def run(scn, sb):
             if tax2.leaf_level != tax.leaf_level:
                 res['probes']['truncated_leaf_level_dropped'] = 1
             W, tax, stats = W2, tax2, stats_t
-        # ---- stage 2: reference markers
-        os.makedirs(sb.p('out', 'refm'))
-        o2, s2 = harness.run_call(sch[1], drivers.run_reference_markers, [stats], sb.p('out', 'refm'),
-                                  sb.p('scratch'), n_processors=scn['refm']['n_processors'],
-                                  n_valid=scn['refm']['n_valid'], exact_penetrance=scn['refm']['exact_penetrance'],
-                                  max_gb=scn['refm']['max_gb'])
-        if o2[0] != 'ok':
-            viol.append({'cls': 'reference-marker-stage-rejects-statistics', 'detail': o2[1][:400]})
-            return res
-        refm = sb.p('out', 'refm', 'reference_markers.h5')
-        # ---- stage 3: query markers
-        qm = sb.p('out', 'qm.json')
-        o3, s3 = harness.run_call(sch[2], drivers.run_query_markers, [refm], qm, sb.p('scratch'),
-                                  n_processors=scn['qm']['n_processors'],
-                                  n_per_utility=scn['qm']['n_per_utility'])
-        if o3[0] != 'ok':
-            viol.append({'cls': 'query-marker-stage-rejects-reference-markers', 'detail': o3[1][:400]})
-            return res
-        lookup = common.load_json(qm)
-        root_children = tax.children(None, None)
-        mcfg = dict(scn['map'], normalization='log2CPM', cloud_safe=False, transport='dir', max_gb=1.0)
-        rt = mapfam.reduced_tax(W, mcfg)
-        lk = {k: v for k, v in lookup.items() if k not in ('metadata', 'log')}
-        used, errs = model.reconcile_markers(rt, lk if not mcfg.get('flatten') else
-                                             {'None': sorted(set(g for v in lk.values() for g in v))},
-                                             list(W.genes), mcfg['min_markers'])
-        if errs:
-            # the marker stages found no gene for some real choice (clusters not separable by the
-            # thresholds): the property presupposes usable markers
-            res['not_judged']['no_reference_marker_for_some_choice'] = 1
-            res['nontrivial'] = False
-            return res
         # ---- the centroid query, from the statistics FILE (by its own cluster_to_row / col_names)
         import h5py
         with h5py.File(stats, 'r') as f:
@@ -154,10 +126,47 @@ def run(scn, sb):
         cent = np.array([ssum[c2r[lf]] / max(1, n[c2r[lf]]) for lf in leaves])
         r = np.random.default_rng(scn['perm_seed'])
         p = r.permutation(len(cols))
+        if scn.get('via_otf') and len(cols) >= 6 and r.random() < 0.7:
+            # the query lacks some of the reference genes: every marker stage has to restrict itself to the query
+            p = p[:max(4, int(0.75 * len(cols)))]
+            res['probes']['centroid_query_lacks_reference_genes'] = 1
         q_genes = [cols[i] for i in p]
         q_ids = ['centroid_of_%d' % i for i in range(len(leaves))]
         qp = sb.p('in', 'centroids.h5ad')
-        world.write_h5ad(qp, cent[:, p], q_ids, q_genes, encoding=mcfg['encoding'])
+        world.write_h5ad(qp, cent[:, p], q_ids, q_genes, encoding=scn['map']['encoding'])
+        via_otf = bool(scn.get('via_otf'))
+        # ---- stage 2: reference markers
+        os.makedirs(sb.p('out', 'refm'))
+        o2, s2 = harness.run_call(sch[1], drivers.run_reference_markers, [stats], sb.p('out', 'refm'),
+                                  sb.p('scratch'), n_processors=scn['refm']['n_processors'],
+                                  n_valid=scn['refm']['n_valid'], exact_penetrance=scn['refm']['exact_penetrance'],
+                                  max_gb=scn['refm']['max_gb'], query_path=qp if via_otf else None)
+        if o2[0] != 'ok':
+            viol.append({'cls': 'reference-marker-stage-rejects-statistics', 'detail': o2[1][:400]})
+            return res
+        refm = sb.p('out', 'refm', 'reference_markers.h5')
+        # ---- stage 3: query markers
+        qm = sb.p('out', 'qm.json')
+        o3, s3 = harness.run_call(sch[2], drivers.run_query_markers, [refm], qm, sb.p('scratch'),
+                                  n_processors=scn['qm']['n_processors'],
+                                  n_per_utility=scn['qm']['n_per_utility'], query_path=qp if via_otf else None)
+        if o3[0] != 'ok':
+            viol.append({'cls': 'query-marker-stage-rejects-reference-markers', 'detail': o3[1][:400]})
+            return res
+        lookup = common.load_json(qm)
+        root_children = tax.children(None, None)
+        mcfg = dict(scn['map'], normalization='log2CPM', cloud_safe=False, transport='dir', max_gb=1.0)
+        rt = mapfam.reduced_tax(W, mcfg)
+        lk = {k: v for k, v in lookup.items() if k not in ('metadata', 'log')}
+        used, errs = model.reconcile_markers(rt, lk if not mcfg.get('flatten') else
+                                             {'None': sorted(set(g for v in lk.values() for g in v))},
+                                             list(q_genes), mcfg['min_markers'])
+        if errs:
+            # the marker stages found no gene for some real choice (clusters not separable by the
+            # thresholds): the property presupposes usable markers
+            res['not_judged']['no_reference_marker_for_some_choice'] = 1
+            res['nontrivial'] = False
+            return res
         paths = {'query': qp, 'stats': stats, 'markers': qm}
         r4 = mapfam.run_map(sb, W, mcfg, sch[3], tag='cent', record=True, paths=paths)
         common.sched_stats(res, [s1, s2, s3, r4['sched']])
@@ -165,6 +174,33 @@ def run(scn, sb):
             viol.append({'cls': 'mapping-rejects-pipeline-products', 'detail': r4['outcome'][1][:400]})
             return res
         results = {x['cell_id']: x for x in r4['blob']['results']}
+        # ---- the same composition through the on-the-fly-marker entry point: identical results
+        if via_otf:
+            os.makedirs(sb.p('out', 'otf'), exist_ok=True)
+            ocfg = drivers.otf_config(
+                qp, stats, sb.p('out', 'otf'), sb.p('scratch'), tag='otf', n_processors=mcfg['n_processors'],
+                n_valid=scn['refm']['n_valid'], exact_penetrance=scn['refm']['exact_penetrance'],
+                n_per_utility=scn['qm']['n_per_utility'], chunk_size=mcfg['chunk_size'],
+                bootstrap_factor=mcfg['bootstrap_factor'], bootstrap_iteration=mcfg['bootstrap_iteration'],
+                rng_seed=mcfg['rng_seed'], n_runners_up=mcfg['n_runners_up'], min_markers=mcfg['min_markers'],
+                flatten=mcfg['flatten'], normalization='log2CPM', max_gb=1.0)
+            o5, s5 = harness.run_call(dict(scn['sched_otf']), drivers.run_otf, ocfg)
+            common.sched_stats(res, [s5])
+            res['probes']['on_the_fly_twin'] = 1
+            if o5[0] != 'ok':
+                viol.append({'cls': 'on-the-fly-run-fails-where-the-stages-succeed', 'detail': o5[1][:400]})
+            else:
+                b5 = common.load_json(ocfg['extended_result_path'])
+                if b5.get('marker_genes') != r4['blob'].get('marker_genes'):
+                    viol.append({'cls': 'on-the-fly-markers-differ-from-staged-markers',
+                                 'detail': 'marker_genes of the on-the-fly run %r, of the staged run %r'
+                                           % (b5.get('marker_genes'), r4['blob'].get('marker_genes'))})
+                elif b5.get('results') != r4['blob'].get('results'):
+                    k5 = [i for i, (a5, a4) in enumerate(zip(b5['results'], r4['blob']['results'])) if a5 != a4]
+                    viol.append({'cls': 'on-the-fly-results-differ-from-staged-results',
+                                 'detail': 'same statistics, thresholds, seed and chunking: %d records differ, first %r vs %r'
+                                           % (len(k5), b5['results'][k5[0]] if k5 else None,
+                                              r4['blob']['results'][k5[0]] if k5 else None)})
         # ---- precondition on the recorded draws, then the claim
         col = {g: i for i, g in enumerate(q_genes)}
         cq = cent[:, p]
